@@ -1,6 +1,7 @@
 import Marwood.Spec.Eval
 import Marwood.Lemmas.EvalOperandOrder
 import Marwood.Lemmas.EvalFrameMain
+import Marwood.Lemmas.EvalPrelude
 /-!
 # C01 — evaluation agrees with the language semantics for core and derived forms
 
@@ -8,6 +9,13 @@ What is proved here and what is not (see `lib/props/c01.py` META.note):
 * T01.4 (`application_operand_order`, `operands_left_to_right`): in the compiler model the code of
   an application is the operand codes in order, each followed by `PUSH`, then the argument count,
   then the operator code, then `CALL`/`TCALL`.
+* T01.1 (`independence`, `independence_from`, `define_procedure_onlyBinds`): the frame property of
+  `Spec.Eval`, closed, for every fuel / session / unrelated definition.
+* T01.2, first half only (`Lemmas/EvalPrelude.lean`, re-checked against the regenerated
+  `Gen/Prelude.lean` = what `prelude.scm` says now): the R7RS matcher expands schematic uses of
+  when / unless / begin / and / or / let / case-with-final-`=>` with the prelude's rules to the
+  expected core forms. The second half (evaluating the expansion = evaluating the form natively)
+  is **not** proved: it needs fuel monotonicity of `Spec.Eval`.
 * T01.3 (compiler correctness, `run (compile e) ≈ Spec.Eval e`) is **not** proved; the agreement of
   the real pipeline with `Spec.Eval` is carried by the differential correspondence.
 -/
